@@ -2,7 +2,7 @@ INIT GenInit
 NEXT GenNext
 CONSTANTS
   MaxToks = 0
-  Toks = {1,2,3,4,5,6,7,8,9,10,11,12,13,14,15}
+  Toks = {1,2,3,4,5,6,7,8,9,10,11,12,13,14,15,16}
   ByteAlphabet = {65, 58, 32, 10, 35, 46, 13}
   MaxBytes = 6
   Mode = "bytedocs"
